@@ -23,7 +23,7 @@
     pub open spec fn rinv(&self) -> bool {
         &&& self.idx().wf() && self.idx().size >= 1
         &&& self.vals_ok()
-        &&& self.carrier.inner.wf()
+        &&& self.carrier.inner.wf() && self.carrier.inner.rc_ok()
         &&& self.db().fk()
         &&& self.heights_ok()
     }
